@@ -60,6 +60,7 @@ def run(ctx: Ctx) -> None:
 
     reps = {
         "layer": lambda: L.layer(),
+        "layer, keywords between and after its blocks": lambda: L.layer_mixed(),
         "style": lambda: cd([("__type__", "style"), ("width", num("w")), ("color", [num("r"), num("g"), num("b")]), ("pattern", [(num("a"), num("b"))])]),
         "map": lambda: cd([("__type__", "map"), ("name", W("m")), ("config", cd([("akey", W("cfg"))])), ("web", cd([("__type__", "web"), ("template", W("tmpl"))])), ("layers", [cd([("__type__", "layer"), ("name", W("ln"))])])]),
         "feature": lambda: cd([("__type__", "feature"), ("points", [(num("a"), num("b"))])]),
